@@ -292,6 +292,24 @@ func execute(d *Data, ref *compiled, refRun *runResult, prodOps string, maxOut i
 	if class == "" {
 		return nil, st
 	}
+	// Listed finding: folding makes every evaluation of a literal yield one shared value, and gojq
+	// decides the validity of a path by the identity of containers; a program that meets the same
+	// literal twice can see it. Recognised by its cause alone: the same code (same coins, folding
+	// still on) run with every constant delivered as a fresh deep copy (hook VerifFreshConst), as if
+	// the literal were built anew, agrees with the reference. A folding that yields wrong values
+	// stays a violation.
+	{
+		gojq.VerifFreshConst = true
+		ar := run(test, d, maxOut)
+		gojq.VerifFreshConst = false
+		same := ar.panicked == "" && len(ar.outs) == len(refRun.outs) && ar.ended == refRun.ended
+		for k := 0; same && k < len(ar.outs); k++ {
+			same = ar.outs[k] == refRun.outs[k]
+		}
+		if same {
+			return mk(viol(d, "folded-literal-identity", "%s", detail)), st
+		}
+	}
 	// The listed finding, recognised by its cause: with the same coins, the difference vanishes when
 	// the constant-path assignment shortcut (still in use) reports a failed update without the
 	// `setpath(...) cannot be applied to` wrapper. Any other defect of the shortcut stays visible.
@@ -369,6 +387,29 @@ var defCarriers = func() []struct{ Src, In string } {
 }()
 
 func init() { directed = append(directed, defCarriers...) }
+
+// the same literal met twice: folding makes one shared value of a literal that otherwise is built
+// anew at every evaluation; nothing may observe the difference (path validity is decided by the
+// identity of containers)
+var sameLiteralTwice = func() []struct{ Src, In string } {
+	var out []struct{ Src, In string }
+	lits := []string{"[1,2]", "{a: 1}", "[[1],{b: 2}]", "{a: [1,2]}", "[]", "{}", "[1,(2|.)]", "[.]", "{a: .}", "[-1]", "{a: -1}", "\"s\"", "[\"a\\(1)\"]"}
+	shapes := []string{
+		"def lf: L; lf | path(lf | .[0]?)", "def lf: L; lf | path(lf | .a?)", "def lf: L; lf | path(lf)", "def lf: L; lf | [paths(lf)]?", "def lf: L; lf | (lf | .[0]?) = 9", "def lf: L; lf | (lf | .a?) |= 9", "def lf: L; lf | del(lf | .[0]?)", "def lf: L; lf | path(lf | ..)",
+		"def lf: L; [lf, lf] | .[0] | path(lf | .[0]?)", "def lf: L; {k: lf} | .k | path(lf | .a?)", "def lf: L; lf as $v | lf | path($v | .[0]?)", "def lf: L; lf | path(first(lf, .) | .[0]?)", "def lf: L; lf | path((lf, .) | .a?)", "def lf: L; lf | path(if true then lf else . end | .[0]?)",
+		"[range(2) | L] | .[0] as $a | .[1] | path($a | .[0]?)", "[range(2) | L] | .[0] | path(L | .[0]?)", "[limit(2; repeat(L))] | .[1] | path(L | .a?)", "reduce range(2) as $i (null; if . == null then L else path(L | .[0]?) end)", "foreach range(2) as $i (null; L; path(L | .[0]?))?",
+		"def lf: L; lf | getpath(path(lf | .[0]?))?", "def lf: L; lf | [paths] | length", "def lf: L; lf | to_entries?", "def lf: L; lf | (lf | .[0]?) += 1", "def lf: L; lf | pick(lf | .[0]?)?", "def lf: L; def lg: lf; lg | path(lf | .[0]?)", "def lf: L; lf | path(lf | .[0]? | lf | .[0]?)",
+		"L | path(L | .[0]?)", "L | path(L)", "L as $v | $v | path($v | .[0]?)", "L as $v | $v | path(L | .[0]?)",
+	}
+	for _, sh := range shapes {
+		for _, l := range lits {
+			out = append(out, struct{ Src, In string }{"try (" + strings.ReplaceAll(sh, "L", l) + ") catch \"E\"", `{"a":[1,2],"b":2}`})
+		}
+	}
+	return out
+}()
+
+func init() { directed = append(directed, sameLiteralTwice...) }
 
 var directed = []struct{ Src, In string }{
 	{`.[1:2], .[1.5:2.5], .[-1:], .[null:1], .[1:null], .[:-1], .[10:], .[-10:2], .[1:1], .[2:1]`, `[1,2,3,4]`},
